@@ -1,8 +1,9 @@
 #!/usr/bin/env python3
-"""Regenerates /verif/MANIFEST.json from tools/claims.json (one entry per property) and validates it."""
+"""Regenerates /verif/MANIFEST.json from tools/claims/Cxx.json (one file per property) and validates it."""
 import json, os, sys
 V = os.path.dirname(os.path.dirname(os.path.abspath(__file__)))
-claims = json.load(open(os.path.join(V, "tools", "claims.json")))
+CD = os.path.join(V, "tools", "claims")
+claims = {fn[:-5]: json.load(open(os.path.join(CD, fn))) for fn in sorted(os.listdir(CD)) if fn.endswith(".json")}
 props = [json.loads(l)["id"] for l in open(os.path.join(V, "properties.jsonl"))]
 checks, na = [], []
 for pid in props:
@@ -28,7 +29,7 @@ m = {
         "guard": "--cfg pavex_verif",
         "enable": "RUSTFLAGS='--cfg pavex_verif' via /verif/harness/.cargo/config.toml (the harness has path dependencies on /repo's crates, so every check rebuilds them from the working tree with hooks on)",
         "baseline_off_cmd": "bash /verif/tools/baseline.sh /repo",
-        "source_commits": claims.get("_hook_commits", []),
+        "source_commits": claims.get("_hooks", {}).get("hook_commits", []),
         "add_only": True,
     },
     "engines": [{"name": "lean4-proof+correspondence", "path": "/verif/lean + /verif/harness + /verif/tools",
